@@ -343,6 +343,8 @@ impl Database {
             .wrap_err_with(|| format!("failed to create metadata file at {:?}", meta_path))?;
         file.write_all(&page)
             .wrap_err("failed to write database header")?;
+        #[cfg(kahflane_turdb_verif)]
+        crate::verif::file_event("created", &meta_path);
 
         let wal_dir = path.join("wal");
 
@@ -734,7 +736,11 @@ impl Database {
             .wrap_err("failed to seek to start of metadata file")?;
         file.write_all(&page)
             .wrap_err("failed to write metadata header")?;
+        #[cfg(kahflane_turdb_verif)]
+        crate::verif::point("meta.written", &[]);
         file.sync_all().wrap_err("failed to sync metadata file")?;
+        #[cfg(kahflane_turdb_verif)]
+        crate::verif::file_event("fsync", &meta_path);
 
         Ok(())
     }
